@@ -145,4 +145,19 @@ impl Prop for C09 {
     fn required_outcomes(&self) -> Vec<&'static str> {
         vec!["accepted", "rejected-with-errors"]
     }
+    fn extra_evidence(&self, tier: Tier, m: &Stats) -> Value {
+        let n = tier.pick(5, 6) - 2;
+        deb822_lossless::verif::reset_coverage();
+        let sp = SeqSpace::new(&REL_CLASSES, n, 0);
+        sp.explore(0, &mut |s, _| {
+            for allow in [false, true] {
+                let _ = guard(budget_for(s.len()), || {
+                    let _ = Relations::parse_relaxed(s, allow);
+                });
+            }
+        });
+        let small: u64 = deb822_lossless::verif::coverage().iter().map(|c| c.count_ones() as u64).sum();
+        let full: u64 = m.coverage.iter().map(|c| c.count_ones() as u64).sum();
+        json!({"abstract_coverage": {"parser_pairs_whole_run": full, "parser_pairs_class_strings_two_shorter": small, "length_two_shorter": n, "saturated": small == full}})
+    }
 }
